@@ -141,7 +141,7 @@ PROPS = {
                           "non-zero divisor) are proof obligations in every kernel under contract, which is what rules out crashes at boundary "
                           "configurations. Constructors, check_data and the end-to-end grid are bounded (Appendix B grid, stated bound).",
             "level_note": "pd.Interval.__contains__, check_data (pandas) assumed/bounded; one recorded known finding (KF1b)"},
-    "C15": {"category": "proof", "driver": "C15", "claimed": True,
+    "C15": {"category": "proof", "driver": "C15", "claimed": True, "lemmas": ["L_segtot_split", "L_pelt_pen_mono"],
             "technique": "contract-based deductive verification of the penalty/threshold functions with LOG/SQRT uninterpreted (explicit axiom instances, "
                          "telescoping lemma for cumsum/diff) + bounded numeric grid",
             "level_text": "capa_penalty, dense/sparse/combined MVCAPA penalties (combined == pointwise minimum of the individually computed dense, sparse and "
